@@ -1,5 +1,6 @@
 import HcModel.Drv.Tlv8
 import HcModel.Drv.Pair
+import HcModel.Drv.Http
 /-
   Line-protocol driver of the executable models: one operation per input line
   (`<module> <op> <args…>`), one result per output line. Core Lean only, so it links as `lean_exe`.
@@ -11,6 +12,7 @@ def step (line : String) : String :=
   | "tlv8" :: rest => Hc.Drv.Tlv8.handle rest
   | "pairsetup" :: rest => Hc.Drv.Pair.handleSetup rest
   | "pairverify" :: rest => Hc.Drv.Pair.handleVerify rest
+  | "http" :: rest => Hc.Drv.Http.handle rest
   | _ => "bad-op"
 
 partial def loop (hin hout : IO.FS.Stream) : IO Unit := do
